@@ -277,6 +277,24 @@ inline Adj observe_out(G& g, const Ctx& c, const NodeMap<G>& nm, galois::MethodF
   return out;
 }
 
+// node data: one independent cell per node, and writing it leaves the edges alone
+template <class G>
+inline void check_node_data(G& g, const Ctx& c, const NodeMap<G>& nm, const Adj& before, uint64_t bound) {
+  if constexpr (std::is_same<typename G::node_data_type, uint32_t>::value) {
+    for (uint32_t i = 0; i < c.n; ++i)
+      g.getData(nm.nodes[i]) = i * 2654435761u + 12345u;
+    for (uint32_t i = 0; i < c.n; ++i) {
+      uint32_t v = g.getData(nm.nodes[i], c.flag());
+      CCHECK(v == i * 2654435761u + 12345u, "node-data", "node %u of %u: node data reads %u after every node was given its own value (%u)", i, c.n, v,
+             i * 2654435761u + 12345u);
+    }
+    Adj after = observe_out(g, c, nm, c.flag(), bound);
+    for (uint32_t i = 0; i < c.n; ++i)
+      if (after[i] != before[i])
+        fail("node-data", "writing the node data changed the out-edges of node %u from %s to %s", i, show(c, before[i]).c_str(), show(c, after[i]).c_str());
+  }
+}
+
 // per-thread local ranges: every node in exactly one range
 template <class G>
 inline void check_local_ranges(G& g, const Ctx& c, const NodeMap<G>& nm) {
